@@ -3,6 +3,8 @@ package main
 import (
 	"context"
 	"fmt"
+	"google.golang.org/genproto/googleapis/api/serviceconfig"
+	"google.golang.org/protobuf/reflect/protoreflect"
 	"net/http/httptest"
 	"strings"
 
@@ -290,7 +292,79 @@ func tokenCountTmpl(s string) int {
 }
 
 // c16API: failing registrations on empty and non-empty muxes leave the published state alone.
+// c16Fields: body and response_body are resolved against the request and the response type
+// respectively; a rule restating an already bound pattern still contributes its additional bindings.
+func c16Fields(c *Ctx) {
+	echo := func(ctx context.Context, in *dynamicpb.Message) (proto.Message, error) {
+		r := dynamicpb.NewMessage(in.Descriptor().ParentFile().Messages().ByName("Reply"))
+		r.Set(r.Descriptor().Fields().ByName("text"), protoreflect.ValueOfString("t"))
+		return r, nil
+	}
+	one := func(name string, rule *annotations.HttpRule, sc *serviceconfig.Service) (*Fixture, error, interface{}) {
+		fixtureDeferRegistration = true
+		fx, err := NewFixture([]*MethodSpec{{Service: "F", Name: name, In: "Req", Out: "Reply", Unary: echo, Rule: rule}}, sc)
+		fixtureDeferRegistration = false
+		if err != nil {
+			return nil, err, nil
+		}
+		e, pn := fx.RegisterOne("F")
+		return fx, e, pn
+	}
+	withResp := func(path, resp string) *annotations.HttpRule { r := getRule(path); r.ResponseBody = resp; return r }
+	for _, tc := range []struct {
+		what   string
+		rule   *annotations.HttpRule
+		accept bool
+	}{
+		{"response_body names a field only the response type has (text)", withResp("/c16f/a", "text"), true},
+		{"response_body names a message field of the response (nested)", withResp("/c16f/b", "nested"), true},
+		{"response_body through the response (echo.name)", withResp("/c16f/c", "echo.name"), true},
+		{"response_body names a field only the request type has (name)", withResp("/c16f/d", "name"), false},
+		{"response_body names a field only the request type has (other_name)", withResp("/c16f/e", "other_name"), false},
+		{"body names a field only the request type has (file)", postRule("/c16f/f", "file"), true},
+		{"body names a field only the response type has (echo)", postRule("/c16f/g", "echo"), false},
+	} {
+		_, err, pn := one("R", tc.rule, nil)
+		c.Eval("api-fields", tc.what, true)
+		switch {
+		case pn != nil:
+			c.SpecFail("api-fields", tc.what, fmt.Sprint("panic: ", pn), "accept or error", "C16/api/panic/fields", "registration panics")
+		case tc.accept && err != nil:
+			c.SpecFail("api-fields", tc.what, err.Error(), "accepted", "C16/api/valid-field-refused", "a rule naming an existing field of the right message is refused")
+		case !tc.accept && err == nil:
+			c.SpecFail("api-fields", tc.what, "accepted", "an error", "C16/api/accepted/field-of-the-other-message", "a rule naming a field of the wrong message is accepted")
+		}
+	}
+	// a rule restating an already bound primary pattern still contributes its additional bindings —
+	// whichever of the two (service-config rule, annotation) carries them
+	for _, extrasOn := range []string{"config", "annotation"} {
+		ann := getRule("/c16f/p/{name}")
+		cfgRule := getRule("/c16f/p/{name}")
+		cfgRule.Selector = fxPkg + ".F.R"
+		extras := []*annotations.HttpRule{getRule("/c16f/extra/{name}"), getRule("/c16f/extra2")}
+		if extrasOn == "config" {
+			cfgRule.AdditionalBindings = extras
+		} else {
+			ann.AdditionalBindings = extras
+		}
+		what := "primary pattern stated by a config rule and by the annotation, additional bindings on the " + extrasOn
+		fx, err, pn := one("R", ann, &serviceconfig.Service{Http: &annotations.Http{Rules: []*annotations.HttpRule{cfgRule}}})
+		c.Eval("api-fields", what, true)
+		if err != nil || pn != nil || fx == nil {
+			c.SpecFail("api-fields", what, fmt.Sprint(err, pn), "accepted", "C16/api/restated-primary-refused", "a rule restating an already bound pattern of the same method is refused")
+			continue
+		}
+		for _, p := range []string{"/c16f/p/x", "/c16f/extra/x", "/c16f/extra2"} {
+			rec, pn := fx.Serve(httptest.NewRequest("GET", p, nil))
+			if pn != nil || rec.Code != 200 {
+				c.SpecFail("api-fields", what+": GET "+p, fmt.Sprint(rec.Code, pn), "200", "C16/api/additional-binding-lost", "an accepted rule's additional binding does not route")
+			}
+		}
+	}
+}
+
 func c16API(c *Ctx) {
+	c16Fields(c)
 	echo := func(ctx context.Context, in *dynamicpb.Message) (proto.Message, error) {
 		return dynamicpb.NewMessage(in.Descriptor().ParentFile().Messages().ByName("Reply")), nil
 	}
